@@ -16,7 +16,7 @@ from spec import wgs84, frames, nav_ode, increments as SI
 
 MANIFEST = dict(
     category="proof",
-    technique="the real generate_imu executed on symbolic smooth functions of time (sympy Functions; scipy spline constructors replaced by the contract 'a spline stands for the smooth function it interpolates'); its rate outputs are proved equal to the (w, f) obtained by solving the exact navigation ODE, for all three input forms; the increment series of _compute_increment_readings is proved as exact polynomial identities; coefficient glue checked on letter arrays; run-time stand-ins on the real splines (closed-form motion; fixed-point post-condition of the latitude iteration at every sample, out-and-back trajectories included)",
+    technique="the real generate_imu executed on symbolic smooth functions of time (sympy Functions; scipy spline constructors replaced by the contract 'a spline stands for the smooth function it interpolates'); its rate outputs are proved equal to the (w, f) obtained by solving the exact navigation ODE, for all three input forms; the increment series of _compute_increment_readings is proved as exact polynomial identities; coefficient glue checked on letter arrays; run-time stand-ins on the real splines (closed-form motion; fixed-point post-condition of the latitude iteration at every sample, out-and-back trajectories included); Bounded stand-ins shared by all properties (labelled bounded, never counted as proved): the argument-form battery of the modules under contract (batches of 1 and 1200 rows, integer-typed values, labels / columns in other orders, extra labels); where the frame analysis finds state that outlives a call (a cache, a memo) the frame obligation becomes a dynamic purity contract against pristine process states; names the proofs replace by scipy contracts are checked to be bound to the library's functions (else a differential test).",
     text="With arbitrary smooth lat(t), lon(t), alt(t), roll(t), pitch(t), heading(t) (symbolic functions, all derivatives free) the real generate_imu's gyro and accelerometer rate outputs are proved identical to the body angular rate and specific force that the exact navigation equations on the rotating ellipsoid (the same specification the integrator is proved consistent with in C01) require for that motion -- so integrating the synthesised readings reproduces the trajectory without comparing the two programs with each other; the velocity returned for position-only input equals the kinematic velocity, the Hermite derivative data of the position+velocity form is the true inertial velocity, and the initial-position form integrates exactly the kinematic equations (the latitude iteration's fixed point; its 0.01 m early exit is a stated tolerance); at rest the outputs are exactly Earth rate and minus gravity in body axes. For the increment type the eight gyro and eight accelerometer series coefficients are proved to be the exact Taylor coefficients of the body rate / rotated specific force for a cubic rotation vector and linear inertial acceleration, integrated over the interval, and the glue passes the spline coefficient arrays in the documented order. That the real splines approximate the smooth functions with an error shrinking with the sampling interval is an assumed theorem, exercised by the stand-in only.",
     note="A1-A6; scipy CubicSpline / CubicHermiteSpline / RotationSpline: interpolate the data (and given derivatives), k-th derivative error O(h^(4-k)) for smooth data (assumed, not checked), coefficient layout c[0] highest power (documented); Rotation contracts (C17); truncation of the two increment series at 4th order in the rotation vector is declared.",
 )
